@@ -16,5 +16,10 @@ def run(ctx):
     sc, sites, st, tst = safety.run(ctx, F, scopes.C13_ENTRIES, with_fmt=True)
     ctx.floor("R-INV", "C13 scope bodies", len(sc), 250)
     ctx.floor("R-INV", "C13 panic-capable sites", st["sites"], 120)
+    # preconditions of panicking callees that rest on a check in another function are stated as rules of their own
+    import prop_c15
+    prop_c15.put_precondition(ctx, F, R="R-GUARD")
+    import prop_c12
+    prop_c12.size_hint_capped(ctx, F)
     import corerules
     corerules.recursion_arg_order(ctx, F, ["Document::build_outline_result"])
